@@ -17,16 +17,17 @@ import (
 )
 
 type oracleInfo struct {
-	corpus    proto.Corpus
-	expected  proto.Expected
-	batch     int // calls executed in batch passes
-	iso       int // calls executed alone in a fresh process
-	dropped   int // calls dropped for exceeding the step bound
-	excluded  map[int]string
-	soak      int // calls made in the one long-lived soak process
-	siteBits  []uint8
-	unmanaged int // goroutines the library started outside of calls (package init)
-	viol      *proto.Record
+	corpus       proto.Corpus
+	expected     proto.Expected
+	batch        int // calls executed in batch passes
+	iso          int // calls executed alone in a fresh process
+	dropped      int // calls dropped for exceeding the step bound
+	excluded     map[int]string
+	soak         int // calls made in the one long-lived soak process
+	siteBits     []uint8
+	crossProcess bool // the violation is a disagreement between fresh processes (already established by 24 of them)
+	unmanaged    int  // goroutines the library started outside of calls (package init)
+	viol         *proto.Record
 }
 
 var degradedMode bool
@@ -374,6 +375,41 @@ func buildOracle(b builds, cfg tierCfg, pre map[int]string) oracleInfo {
 					}
 					oi.viol = c
 					break
+				}
+			}
+			if oi.viol == nil && len(r.Run.Tasks) == 1 && len(r.Run.Tasks[0].Ops) > 0 {
+				// last possibility before blaming the instrumenter: the result differs from
+				// PROCESS to process (something computed once per process from map order,
+				// addresses, ...). Make the same call alone in 24 fresh uninstrumented processes.
+				ops := r.Run.Tasks[0].Ops
+				cid := ops[len(ops)-1].Call
+				outs := make([]string, 24)
+				var pw sync.WaitGroup
+				for k := range outs {
+					pw.Add(1)
+					sem <- struct{}{}
+					go func(k int) {
+						defer pw.Done()
+						defer func() { <-sem }()
+						o := oracleRun(b.ref, cfg.procWall, corpusPath, "canonical", []int{cid})
+						if len(o.Outcomes) > 0 {
+							outs[k] = o.Outcomes[0]
+						}
+					}(k)
+				}
+				pw.Wait()
+				distinct := map[string]int{}
+				for _, o := range outs {
+					distinct[o]++
+				}
+				if len(distinct) > 1 {
+					one := seqRecord(&oi.corpus, []int{cid}, 0, ref, "nondeterministic_result", "ref")
+					one.ReplayMode = "probabilistic"
+					one.Violations = []proto.Violation{{Class: "nondeterministic_result", Task: 0, Op: 0, Fn: oi.corpus.Calls[cid].Fn,
+						Detail:   fmt.Sprintf("%s made alone in 24 fresh processes gave %d different results: the result depends on the process, not only on the arguments", callStr(cid), len(distinct)),
+						Expected: ref[cid], Observed: fmt.Sprint(distinct)}}
+					oi.viol = one
+					oi.crossProcess = true
 				}
 			}
 			if oi.viol == nil {
